@@ -192,11 +192,12 @@ func runTx2(c *core.Ctx) {
 	}
 	c.Check(len(dbCalls) == 0, nil, fname(c, fn), "no-db-bypass", P.Pos(begin.Pos()), "between begin and return nothing talks to *sql.DB directly", "statements bypass the transaction: "+strings.Join(dbCalls, "; ")+" — they are not rolled back with the batch")
 	// every Exec is on a statement prepared on this tx
-	for _, call := range callsNamed(fn, "(*database/sql.Stmt).ExecContext") {
+	for _, o := range an.RegionCalls(fn, nil, "(*database/sql.Stmt).ExecContext") {
+		call := o.In.(*ssa.Call)
 		c.CountSites(1)
-		q, ok := stmtQuery(call.Call.Args[0], begin)
+		q, ok := stmtQuery(o.Resolve(call.Call.Args[0]), begin)
 		tbl := sqlTable(q)
-		c.Check(ok, nil, fname(c, fn), "exec["+tbl+"]", P.Pos(call.Pos()), "executed on a statement prepared with tx.PrepareContext ("+tbl+")", "ExecContext on a statement that was not prepared on this transaction: "+an.PathOf(call.Call.Args[0]))
+		c.Check(ok, nil, fname(c, fn), "exec["+tbl+"]", P.Pos(call.Pos()), "executed on a statement prepared with tx.PrepareContext ("+tbl+")", "ExecContext on a statement that was not prepared on this transaction: "+o.Path(call.Call.Args[0]))
 	}
 }
 
@@ -237,59 +238,43 @@ func runTx3(c *core.Ctx) {
 		return
 	}
 	c.CountFuncs(1)
-	for _, ci := range calls(fn) {
-		call, ok := ci.(*ssa.Call)
-		if !ok {
-			continue
-		}
-		n := an.CalleeName(&call.Call)
-		if !(isSQLMethod(n, "Tx") || isSQLMethod(n, "Stmt") || isSQLMethod(n, "DB") || n == "invoke:database/sql.Result.RowsAffected") {
-			continue
-		}
-		short := n[strings.LastIndex(n, ".")+1:]
-		if short == "Close" {
-			continue
-		}
-		c.CountSites(1)
-		construct := "error-of:" + short
-		if short == "ExecContext" {
-			if q, ok := an.ConstStr(prepArg(call)); ok {
-				construct += "[" + sqlTable(q) + "]"
-			}
-		}
-		if short == "PrepareContext" {
-			if q, ok := an.ConstStr(call.Call.Args[2]); ok {
-				construct += "[" + sqlTable(q) + "]"
-			}
-		}
-		// the error result
+	// the error of a call is propagated: tested, and the failing edge returns a non-nil error
+	// from the function the call sits in
+	propagated := func(host *ssa.Function, call *ssa.Call) bool {
 		var errV ssa.Value
-		if call.Referrers() != nil {
-			for _, r := range *call.Referrers() {
-				if e, ok := r.(*ssa.Extract); ok && e.Index == call.Type().(interface{ Len() int }).Len()-1 {
-					errV = e
+		if tup, isTuple := call.Type().(*types.Tuple); isTuple {
+			if call.Referrers() != nil {
+				for _, r := range *call.Referrers() {
+					if e, ok := r.(*ssa.Extract); ok && e.Index == tup.Len()-1 {
+						errV = e
+					}
 				}
 			}
+		} else {
+			errV = call
 		}
 		if errV == nil {
-			c.Bad(nil, fname(c, fn), construct, P.Pos(call.Pos()), "the error of "+short+" is discarded: a failing statement does not abort (and roll back) the batch")
-			continue
+			return false
 		}
-		// an If on errV != nil whose true edge returns non-nil
 		good := false
-		an.Instrs(fn, func(in ssa.Instruction) {
+		an.Instrs(host, func(in ssa.Instruction) {
 			iff, ok := in.(*ssa.If)
 			if !ok {
 				return
 			}
-			b, ok := iff.Cond.(*ssa.BinOp)
-			if !ok || b.Op != token.NEQ || !an.IsNilConst(b.Y) {
+			cd := an.NormCond(an.Cond{V: iff.Cond, True: true})
+			b, ok := cd.V.(*ssa.BinOp)
+			if !ok || (b.Op != token.NEQ && b.Op != token.EQL) || !an.IsNilConst(b.Y) {
 				return
 			}
 			if b.X != errV && blockLocal(b.X) != errV {
 				return
 			}
-			t := iff.Block().Succs[0]
+			failSucc := 0
+			if (b.Op == token.NEQ) != cd.True {
+				failSucc = 1
+			}
+			t := iff.Block().Succs[failSucc]
 			if r, ok := an.LastInstr(t).(*ssa.Return); ok {
 				rv := an.ReturnValues(r)
 				if !an.IsNilConst(rv[len(rv)-1]) {
@@ -297,8 +282,53 @@ func runTx3(c *core.Ctx) {
 				}
 			}
 		})
-		c.Check(good, nil, fname(c, fn), construct, P.Pos(call.Pos()), "error tested; the failing edge returns a non-nil error (so the deferred closure rolls back)", "the error of "+short+" is not tested with a failing edge that returns it: the batch continues and commits after a failed statement")
+		// `return helper(...)`: the error is handed on as it is
+		if !good {
+			for _, rb := range an.ReturnBlocks(host) {
+				rv := an.ReturnValues(an.LastInstr(rb).(*ssa.Return))
+				if len(rv) > 0 && (rv[len(rv)-1] == errV) {
+					good = true
+				}
+			}
+		}
+		return good
 	}
+	an.Region(fn, nil, func(o an.Occ) {
+		call, ok := o.In.(*ssa.Call)
+		if !ok {
+			return
+		}
+		n := an.CalleeName(&call.Call)
+		if !(isSQLMethod(n, "Tx") || isSQLMethod(n, "Stmt") || isSQLMethod(n, "DB") || n == "invoke:database/sql.Result.RowsAffected") {
+			return
+		}
+		short := n[strings.LastIndex(n, ".")+1:]
+		if short == "Close" {
+			return
+		}
+		c.CountSites(1)
+		construct := "error-of:" + short
+		if short == "ExecContext" {
+			if e, isEx := an.Unwrap(o.Resolve(call.Call.Args[0])).(*ssa.Extract); isEx {
+				if prep, isCall := e.Tuple.(*ssa.Call); isCall && len(prep.Call.Args) >= 3 {
+					if q, ok := an.ConstStr(prep.Call.Args[2]); ok {
+						construct += "[" + sqlTable(q) + "]"
+					}
+				}
+			}
+		}
+		if short == "PrepareContext" {
+			if q, ok := an.ConstStr(call.Call.Args[2]); ok {
+				construct += "[" + sqlTable(q) + "]"
+			}
+		}
+		good := propagated(call.Parent(), call)
+		// … and up through every helper level to the transaction function
+		for i := len(o.Chain) - 1; i >= 0 && good; i-- {
+			good = propagated(o.Chain[i].Parent(), o.Chain[i])
+		}
+		c.Check(good, nil, fname(c, fn), construct, P.Pos(call.Pos()), "error tested; the failing edge returns a non-nil error (so the deferred closure rolls back)", "the error of "+short+" is not tested with a failing edge that returns it: the batch continues and commits after a failed statement")
+	})
 }
 
 // prepArg: for stmt.ExecContext, the query constant of the PrepareContext that made stmt.
@@ -323,17 +353,19 @@ func runTx4(c *core.Ctx) {
 	type ex struct {
 		call *ssa.Call
 		q    string
+		at   *ssa.BasicBlock // the place in the transaction function (call site of a helper)
 	}
 	var others []ex
-	for _, call := range callsNamed(fn, "(*database/sql.Stmt).ExecContext") {
-		q, ok := stmtQuery(call.Call.Args[0], begin)
+	for _, o := range an.RegionCalls(fn, nil, "(*database/sql.Stmt).ExecContext") {
+		call := o.In.(*ssa.Call)
+		q, ok := stmtQuery(o.Resolve(call.Call.Args[0]), begin)
 		if !ok {
 			continue
 		}
-		if strings.Contains(q, "do update") {
+		if strings.Contains(q, "do update") && len(o.Chain) == 0 {
 			upsert = call
 		} else {
-			others = append(others, ex{call, q})
+			others = append(others, ex{call, q, o.Block()})
 		}
 	}
 	if upsert == nil {
@@ -361,7 +393,7 @@ func runTx4(c *core.Ctx) {
 		c.CountSites(1)
 		tbl := sqlTable(o.q)
 		good := false
-		for _, g := range an.Guards(fn, o.call.Block()) {
+		for _, g := range an.Guards(fn, o.at) {
 			b, ok := g.V.(*ssa.BinOp)
 			if !ok || affected == nil || b.X != affected {
 				continue
